@@ -58,6 +58,27 @@ def gen_machine(rnd):
     return spec, streams
 
 
+def directed_fanout(rnd, with_env):
+    """one producer whose output is read by a fast and a slow processor (and, optionally, by the environment too): the producer may
+    only go on when every consumer has received the value"""
+    rsize = rnd.choice([8, 16])
+    pad = ["nop"] * 3
+    prod = ["i2rw r0 i0"] + pad + ["inc r0", "r2owa r0 o0"] + pad + ["j 0"]
+    fast = ["i2rw r0 i0"] + pad + ["r2owa r0 o0"] + pad + ["j 0"]
+    slow = ["i2rw r0 i0"] + pad + ["add r0 r0", "r2owa r0 o0"] + pad + ["nop"] * 9 + ["j 0"]
+    specs = []
+    for prog in (prod, fast, slow):
+        ops = sorted(set(l.split()[0] for l in prog) | {"nop", "j"})
+        specs.append({"arch": {"R": 2, "N": 1, "M": 1, "L": 0, "O": max(3, len(prog).bit_length()), "ops": ops, "mode": "ha", "rsize": rsize}, "prog": prog})
+    bonds = [["p0i0", "i0"], ["p1i0", "p0o0"], ["p2i0", "p0o0"], ["o0", "p1o0"], ["o1", "p2o0"]]
+    nout = 2
+    if with_env:
+        bonds.append(["o2", "p0o0"])
+        nout = 3
+    spec = {"rsize": rsize, "procs": specs, "inputs": 1, "outputs": nout, "bonds": bonds}
+    return spec, [[rnd.randrange(1, 1 << (rsize - 1)) for _ in range(5)]]
+
+
 def go_streams(ticks, nout):
     outs = [[] for _ in range(nout)]
     prev = [False] * nout
@@ -90,7 +111,7 @@ def run(res, a):
     C.build_harness()
     rnd = random.Random(a.seed)
     n = 10 if a.tier == "quick" else 120
-    cases = [gen_machine(rnd) for _ in range(n)]
+    cases = [directed_fanout(rnd, False), directed_fanout(rnd, True)] + [gen_machine(rnd) for _ in range(n)]
     if a.replay:
         rp = json.load(open(a.replay))["replay"]
         cases = [(rp["machine"], rp["streams"])]
